@@ -330,6 +330,7 @@ func dispatchSign(ctx context.Context, submitterc chan []byte, signc chan *vss.S
 			defer logger.TimeTrack(time.Now(), "dispatchSign", map[string]interface{}{"GroupID": ctx.Value(ctxKey("GroupID")), "RequestID": ctx.Value(ctxKey("RequestID"))})
 
 			if !ok {
+				close(out)
 				return
 			}
 			if r := bytes.Compare(p.GetID(), submitter); r != 0 {
@@ -357,10 +358,12 @@ func dispatchSign(ctx context.Context, submitterc chan []byte, signc chan *vss.S
 		select {
 		case <-ctx.Done():
 			close(out)
+			return
 		case sign := <-signc:
 			select {
 			case <-ctx.Done():
 				close(out)
+				return
 			case out <- sign:
 			}
 		}
@@ -368,6 +371,7 @@ func dispatchSign(ctx context.Context, submitterc chan []byte, signc chan *vss.S
 		req := request{ctx: ctx, requestID: string(requestID), threshold: threshold, reply: out}
 		select {
 		case <-ctx.Done():
+			close(out)
 		case reqSignc <- req:
 		}
 	}()
